@@ -1339,25 +1339,22 @@ def big_enum_violation(rng):
     random places; referred to by nothing, so that no later stage masks the verdict.  Returns (items, label)."""
     n = rng.choice([19, 20, 21, 22, 23, 31, 32, 33, 40, 63, 64, 65, 100, 128, 129])
     kind = rng.choice(["name", "name", "seq"])
-    vs = []
-    for j in range(n):
-        k = j + 1 if kind == "seq" else (j % 4)
-        vs.append({"name": f"V{j}x", "fieldset": {"kind": "empty"} if k == 0 else {"kind": "tuple", "fields": [{"used": True, "sym": sym_t("T")} for _ in range(k)]}})
-    if kind == "seq":
-        vs[0]["fieldset"] = {"kind": "empty"}
+
+    def seq(j):
+        # pairwise distinct short sequences: the binary digits of j + 1 written with two terminals
+        bits = bin(j + 1)[2:]
+        return {"kind": "tuple", "fields": [{"used": True, "sym": sym_t("T" if b == "0" else "U")} for b in bits]}
+
+    vs = [{"name": f"V{j}x", "fieldset": seq(j)} for j in range(n)]
     occ = sorted(rng.sample(range(n), rng.choice([2, 2, 3])))
     for o in occ[1:]:
         if kind == "name":
             vs[o]["name"] = vs[occ[0]]["name"]
         else:
-            vs[o]["fieldset"] = vs[occ[0]]["fieldset"]
-    if kind == "name":
-        # keep the symbol sequences of the equally named variants distinct (one violation kind at a time)
-        for j, v in enumerate(vs):
-            v["fieldset"] = {"kind": "empty"} if j == 0 else {"kind": "tuple", "fields": [{"used": True, "sym": sym_t("T")} for _ in range(j)]}
+            vs[o]["fieldset"] = seq(occ[0])
     items = [{"kind": "start", "name": "S"}, {"kind": "struct", "attrs": [], "name": "S", "fieldset": {"kind": "empty"}},
              {"kind": "enum", "attrs": [], "name": "Big", "variants": vs},
-             {"kind": "terminal", "attrs": [], "name": "Tok", "variants": [{"name": "T", "type": "()"}]}]
+             {"kind": "terminal", "attrs": [], "name": "Tok", "variants": [{"name": "T", "type": "()"}, {"name": "U", "type": "()"}]}]
     if rng.random() < 0.5:
         items[1], items[2] = items[2], items[1]
     return items, f"big-enum-{kind}-{n}"
